@@ -7,6 +7,7 @@ import (
 	"os"
 	"strings"
 	"sync"
+	"sync/atomic"
 	"time"
 
 	"github.com/uhppoted/uhppote-core/types"
@@ -277,6 +278,7 @@ func c06Loopback(c *Ctx) {
 	N := c.N(400, 6000) // cases per worker goroutine
 	ops := append([]*rm.Op{rm.FindOp("GetDevices")}, reqOps()...)
 	var wg sync.WaitGroup
+	var hung atomic.Bool
 	for w := 0; w < workers; w++ {
 		wg.Add(1)
 		go func(w int) {
@@ -335,7 +337,7 @@ func c06Loopback(c *Ctx) {
 					}
 				}
 			}
-			for i := 0; i < N; i++ {
+			for i := 0; i < N && !hung.Load(); i++ {
 				caseNo := int64(w*N + i)
 				serial := uint32(0x40000000) + uint32(c.Batch)<<24 + uint32(w)<<20 + uint32(i) + 1
 				dv := c06Dev{c06States[r.Pick(5)], c06Protos[r.Pick(6)], r.Chance(0.5)}
@@ -463,6 +465,18 @@ func c06Loopback(c *Ctx) {
 				}
 				var out rm.Outcome
 				start := time.Now()
+				callDone := make(chan struct{})
+				go func() {
+					select {
+					case <-callDone:
+					case <-time.After(T + 20*time.Second):
+						// a call that does not come back: nothing after it on this worker can be judged (and the batch would only meet its watchdog)
+						c.Res.Eval(1)
+						c.Res.Violate("C06:loopback:hang", fmt.Sprintf("%s (controller %s, protocol %q, bind %s) did not return within T+20s (T=%v)", op.Name, dv.state, dv.proto, cfg.Bind, T),
+							map[string]any{"layer": "loopback", "op": op.Name, "config": fmt.Sprintf("%+v", cfg), "previous_case": prevCase}, caseNo)
+						hung.Store(true)
+					}
+				}()
 				if op.Discovery {
 					if _, err := u.GetDevices(); err != nil {
 						out.Err = err.Error()
@@ -483,6 +497,7 @@ func c06Loopback(c *Ctx) {
 					}
 				}
 				elapsed := time.Since(start)
+				close(callDone)
 				// quiescence: wait (bounded) until the request has been logged, then a little longer for stray duplicates
 				waitArrival := 500
 				if dv.state == "refusing" && !op.Discovery {
@@ -610,6 +625,18 @@ func c06Loopback(c *Ctx) {
 			}
 		}(w)
 	}
-	wg.Wait()
+	allDone := make(chan struct{})
+	go func() { wg.Wait(); close(allDone) }()
+	for waiting := true; waiting; {
+		select {
+		case <-allDone:
+			waiting = false
+		case <-time.After(time.Second):
+			if hung.Load() {
+				time.Sleep(3 * time.Second) // the other workers finish their current case; the hung one never will
+				waiting = false
+			}
+		}
+	}
 	_ = types.BindAddr{}
 }
